@@ -50,7 +50,15 @@ func symInert(name string) byte {
 }
 
 // symNum: a one-digit number literal 1..9 (one scanner class; the value is still solver-chosen).
-func symNum(name string) *JV { return jNum([]byte{symDigit19(name)}) }
+func symNum(name string) *JV {
+	if concreteNums {
+		return jNum([]byte{byte('1' + vx.Choose(name+".digit", 2))})
+	}
+	return jNum([]byte{symDigit19(name)})
+}
+
+// concreteNums switches number leaves to concrete digits (1,2,…) for code that converts numbers to float64.
+var concreteNums bool
 
 // symStr1: a string of one inert byte.
 func symStr1(name string) *JV { return jStr([]byte{symInert(name)}) }
@@ -226,7 +234,6 @@ func renderPatch(ops []Op) []byte {
 	}
 	return append(out, ']')
 }
-
 
 // litNum: number templates with symbolic digits.
 func litNum(pfx string, i int) *JV {
